@@ -10,6 +10,7 @@ var registry = map[string]core.Harness{
 	"C22": TXN{Prop: "C22"},
 	"C23": TXN{Prop: "C23"},
 	"C25": TXN{Prop: "C25"},
+	"C27": KL{},
 }
 
 func TestSim(t *testing.T) { core.WorkerMain(t, registry) }
